@@ -144,3 +144,43 @@ def bindings(pat):
                 go(p["slice"], path + ["[..]"])
     go(pat, [])
     return out
+
+
+def callsites(F, path):
+    """call sites of a function body (closures of the function included):
+    [{callee, name, container, args, sp, node}]"""
+    out = []
+    bodies = [path] + F.closures_of(path)
+    for bp in bodies:
+        th = F.bodies[bp]["thir"]
+        if th is None:
+            continue
+        for n in find_nodes(th["body"], lambda n: n.get("k") == "call" and "callee" in n):
+            c = n["callee"]
+            out.append({"callee": c.get("resolved") or c.get("def"), "def": c.get("def"),
+                        "name": c.get("name"), "container": c.get("container"), "trait": c.get("trait"),
+                        "args": n["args"], "sp": n.get("sp", ""), "node": n, "in": bp})
+    return out
+
+
+def param_names(F, path):
+    th = F.bodies[path]["thir"]
+    out = []
+    for p in th["params"]:
+        pat = p["pat"]
+        while pat is not None and pat["k"] in ("deref",):
+            pat = pat["sub"]
+        out.append(pat["name"] if pat is not None and pat["k"] == "bind" else None)
+    return out
+
+
+def strip_expr(e):
+    """peel borrows / derefs / coercions / blocks with a single tail expression"""
+    while True:
+        k = e.get("k")
+        if k in ("borrow", "deref", "coerce", "never_to_any", "raw_borrow", "cast"):
+            e = e["e"]
+        elif k == "block" and not e["b"]["stmts"] and e["b"]["expr"] is not None:
+            e = e["b"]["expr"]
+        else:
+            return e
